@@ -104,7 +104,8 @@ CLAIMED["C02"] = dict(
          "bracket); with allow_comments on, COMPLETENESS is proved (every text the comment-aware grammar derives, with no comment after the root value - the "
          "recorded divergence D22 - is accepted with the same events: parse_complete_options), a strictly accepted text stays accepted under every option "
          "setting with the same events (options_only_relax), and the comments flag is irrelevant for texts without '/' (options_relax_exactly_slash_free); "
-         "soundness with comments on is decided per case (real parser = model = reference with the matching flag on every generated input). The theorems are about "
+         "soundness with comments on is proved for documents whose root is a literal or a number (parse_exact_comments_scalars, with the comment-aware "
+         "white-space inversion acc_skip) and otherwise decided per case (real parser = model = reference with the matching flag on every generated input). The theorems are about "
          "the model; the model is tied to json_parser.hpp by the state-level correspondence on generated inputs, not by proof. wchar_t is not exercised. "
          "D80 (block comment ending in **/) was found while building the model and fixed; known finding D22 (comment after the root value) is listed.",
     technique="Lean 4 theorems: the state-machine model of json_parser.hpp accepts exactly the RFC 8259 grammar with the specified events (both directions, "
@@ -142,7 +143,7 @@ CLAIMED["C06"] = dict(
               "encoder models + round-trip oracle",
     design="§5 C06, §9.2")
 CLAIMED["C07"] = dict(
-    text="Lean 4 models of the REAL CBOR and MessagePack decoders (JV.Model.MsgpackParser = msgpack_parser.hpp: all 256 type bytes, get_size, UTF-8 check, ext / fixext and the three timestamp layouts, the nesting check; tied to the real decoder on ~70k inputs per run and proved to refine the MessagePack reference for all inputs: msgpack_parser_model_refines_spec). CBOR: Lean 4 model of the REAL CBOR decoder (JV.Model.CborParser = cbor_parser.hpp: read_item dispatch, read_uint64 / read_int64 / read_size / read_double, definite and chunked strings with per-chunk UTF-8 validation, definite and indefinite arrays and maps, break handling, simple values, the nesting check, non-text map keys as the generic visitor renders them; tags, stringrefs and typed arrays answer skip), tied to the real decoder outcome by outcome (value or cbor_errc code) on ~60k inputs per run, and PROVED for all inputs and all depth limits to refine the RFC 8949 reference decoder (cbor_parser_model_refines_spec: equal value and rest whenever both give one; the model never accepts ill-formed input; it may additionally refuse for max_nesting_depth_exceeded / number_too_large). The real CBOR, MessagePack, UBJSON and BSON decoders are compared on every run with reference decoders written in Lean 4 from the "
+    text="Lean 4 models of the REAL CBOR, MessagePack and UBJSON decoders (JV.Model.UbjsonParser = ubjson_parser.hpp: every marker, typed / counted / open containers, no-ops, high-precision numbers, get_length, read_key, max_items and depth limits; tied to the real decoder on ~70k inputs per run with 0 mismatches; proved against the reference per fragment - integers of every width, floats, strings, truncation, limits - for all inputs), and of the REAL CBOR and MessagePack decoders (JV.Model.MsgpackParser = msgpack_parser.hpp: all 256 type bytes, get_size, UTF-8 check, ext / fixext and the three timestamp layouts, the nesting check; tied to the real decoder on ~70k inputs per run and proved to refine the MessagePack reference for all inputs: msgpack_parser_model_refines_spec). CBOR: Lean 4 model of the REAL CBOR decoder (JV.Model.CborParser = cbor_parser.hpp: read_item dispatch, read_uint64 / read_int64 / read_size / read_double, definite and chunked strings with per-chunk UTF-8 validation, definite and indefinite arrays and maps, break handling, simple values, the nesting check, non-text map keys as the generic visitor renders them; tags, stringrefs and typed arrays answer skip), tied to the real decoder outcome by outcome (value or cbor_errc code) on ~60k inputs per run, and PROVED for all inputs and all depth limits to refine the RFC 8949 reference decoder (cbor_parser_model_refines_spec: equal value and rest whenever both give one; the model never accepts ill-formed input; it may additionally refuse for max_nesting_depth_exceeded / number_too_large). The real CBOR, MessagePack, UBJSON and BSON decoders are compared on every run with reference decoders written in Lean 4 from the "
          "specifications, on outputs of independent reference encoders in every legal width and form, mutations, every strict prefix and every 1-2 "
          "(thorough: sampled 3) byte string. Proved about the CBOR reference: integers of all five widths and both majors are read back exactly from "
          "the encoder model's head, reserved additional information 28-31 and truncated heads are ill-formed for every continuation."
